@@ -316,3 +316,30 @@ def odd_task_replies(which, kind: int, c0: int, c1: int, c2: int, c3: int):
 
 SCN["odd_task_replies"] = (["0 <= kind < 3"], 300, 900, ("quick", "thorough"))
 scn.__dict__["odd_task_replies"] = odd_task_replies
+
+
+def orphan_dropped_beside_waiting(which, stray: bool, c0: int, c1: int, c2: int, c3: int, c4: int, c5: int, c6: int, c7: int):
+    """P = Parallel[ Task a | Fail ] whose Catcher goes on to a 30 s Wait.  Under the schedules where a's reply arrives
+    after P has failed (its request was cancelled) the reply has no requestor: the engine keeps it for the retention
+    period and then drops it, while the Wait's event is the other outstanding delivery.  Dropping the orphan must
+    settle that one delivery and no other (stray: a second reply without any request arrives as well)."""
+    stray = cbool(stray)
+    asl = {"StartAt": "P", "States": {
+        "P": {"Type": "Parallel", "ResultPath": "$.p", "Next": "Z",
+              "Catch": [{"ErrorEquals": ["States.ALL"], "ResultPath": "$.err", "Next": "W"}],
+              "Branches": [{"StartAt": "A", "States": {"A": task("a", End=True)}},
+                           {"StartAt": "F", "States": {"F": {"Type": "Fail", "Error": "Boom", "Cause": "c"}}}]},
+        "W": {"Type": "Wait", "Seconds": 30, "Next": "Z"},
+        "Z": {"Type": "Pass", "Parameters": {"done": True}, "End": True}}}
+
+    def w(req):
+        if stray:
+            m = sim.Message('{"late": true}')
+            m.message_id = "stray"; m.correlation_id = "no-such-request"
+            sim.BROKER.publish("asl_workflow_reply_to-i1", m)
+        return {"ok": "a"}
+    return _run(asl, {"x": 1}, [c0, c1, c2, c3, c4, c5, c6, c7], {"a": w}, which, "STANDARD", ("SUCCEEDED", {"done": True}), max_steps=120)
+
+
+SCN["orphan_dropped_beside_waiting"] = ([], 300, 900, ("quick", "thorough"))
+scn.__dict__["orphan_dropped_beside_waiting"] = orphan_dropped_beside_waiting
